@@ -46,44 +46,33 @@ func (r CharRecipe) n() *big.Int {
 // Unfortunately, we can't take the log until the very end, so we will
 // be dealing with some very large numbers.
 func n(allowed set.Set, required set.Set, length int) *big.Int {
-	// totalCount is the total number of permutations possible when a
-	// password of length n is generated from the set R, which is the
-	// union of all sets in the password recipe.
+	// R is the union of all sets in the password recipe: every character
+	// that may appear in a password.
 	R := unionAll(allowed.Union(required))
-	totalCount := &big.Int{}
-	totalCount.Exp(toBigInt(R.Cardinality()), toBigInt(length), nil) // #nosec G105
 
-	// Each of these sets of sets represents a password recipe that we
-	// will reject and thus must subtract from our total count.
-	// We want to reject all subsets of the set of required sets except
-	// the set of required sets itself.
-	// For example, if L and D are required, rejectedSubsets
-	// will contain {L} and {D} and will not contain {L, D}.
-	// Optional sets are not part of this at all because they will
-	// simply be tacked on at the end.
-	powerSet := required.PowerSet()
-	rejectedSubsets := set.NewSet()
-	for el := range powerSet.Iter() {
-		elSet, ok := el.(set.Set)
-		if ok && !required.Equal(elSet) {
-			rejectedSubsets.Add(elSet)
+	// We count by inclusion-exclusion over the required sets. For a
+	// collection of required sets, the passwords that miss every one of them
+	// are the passwords of length n over R with those sets removed. Those are
+	// added for collections of even size and subtracted for collections of odd
+	// size. (For the empty collection this is everything that can be built
+	// from R.) Unlike subtracting the counts of the "smaller" recipes, this
+	// also holds when required sets overlap each other.
+	count := &big.Int{}
+	for el := range required.PowerSet().Iter() {
+		missed, ok := el.(set.Set)
+		if !ok {
+			continue
+		}
+		remaining := R.Difference(unionAll(missed))
+		term := &big.Int{}
+		term.Exp(toBigInt(remaining.Cardinality()), toBigInt(length), nil) // #nosec G105
+		if missed.Cardinality()%2 == 1 {
+			count.Sub(count, term)
+		} else {
+			count.Add(count, term)
 		}
 	}
-
-	// When requiredSets is {{}} (it is a set containing only the empty set),
-	// powerSet(requiredSets) will also be {{}};
-	// thus, rejectedSubsets will be empty, the reducing
-	// function below will not run, and rejectedCount will be 0,
-	// terminating the recursion.
-
-	rejectedCount := sumAll(
-		rejectedSubsets,
-		func(subset set.Set) *big.Int {
-			return n(allowed, subset, length)
-		},
-	)
-
-	return totalCount.Sub(totalCount, rejectedCount)
+	return count
 }
 
 func toBigInt(i int) *big.Int {
